@@ -635,3 +635,164 @@ def ex_pipeline(c):
 
 
 EXECUTORS.update({"pipeline": ex_pipeline})
+
+
+# ---------------------------------------------------------------------------------------------- Weaver histories (C08, C09, C20)
+DOMAIN_OPS = {"append", "shift_x", "shift_y", "scale_x", "scale_y", "normalize_x", "normalize_y", "repeat", "truncate_value", "truncate_index"}
+
+
+def _stopv(v):
+    return None if v == NONEINT else v
+
+
+def wcall(w, op):
+    """Perform one operation record on a real Weaver (public API only)."""
+    k = op["k"]
+    if k == "append":
+        return w.append_one_sample(make_periodic=op["periodic"])
+    if k in ("shift_x", "shift_y", "scale_x", "scale_y"):
+        v = fl(op["v"])
+        return getattr(w, k)(int(v) if op.get("as_int") and v == int(v) else v)
+    if k in ("normalize_x", "normalize_y"):
+        return getattr(w, k)(fl(op["lo"]), fl(op["hi"]))
+    if k == "repeat":
+        return w.repeat(op["r"])
+    if k == "truncate_value":
+        return w.truncate_by_value(fl(op["left"]), fl(op["right"]), x_left_as_ratio=op["lr"], x_right_as_ratio=op["rr"])
+    if k == "truncate_index":
+        return w.truncate_by_index(op["start"], _stopv(op["stop"]))
+    if k == "restore_original":
+        return w.restore_original()
+    if k == "recreate":
+        c = dict(op)
+        cls = getattr(rfa_mod, RFA_CLASSES[op["strategy"]])
+        return w.recreate_from_average(op["n_f"] if "n_f" in op else op["n"], rfa_class=cls, **rfa_kwargs(c))
+    if k == "integral_match":
+        kw = {"target_function_integral_method": op["trule"], "reference_function_integral_method": op["rrule"]}
+        kw["alpha"] = op["alpha_f"] if "alpha_f" in op else fl(op["alpha"])
+        return w.integral_match(**kw)
+    if k == "interpolate_n":
+        return w.interpolate(n=op["n"], method=op["method"])
+    if k == "interpolate_grid":
+        q = arr(op["q"], op.get("qcontainer", "array"))
+        return w.interpolate(new_x=q, method=op["method"])
+    if k == "trend":
+        return w.trend(poly(op["c"]), normalized=op["normalized"])
+    if k == "smooth":
+        return w.smooth(op["s_f"])
+    if k == "noise":
+        np.random.seed(op.get("seed", 1))
+        return w.noise(op["snr_f"], **({"snr_in_db": False} if op.get("linear") else {}))
+    if k == "slice_index":
+        return w.slice_by_index(op["start"], _stopv(op["stop"]), op.get("step", 1))
+    if k == "slice_value":
+        kw = {}
+        if op["start"] != NONE:
+            kw["start"] = fl(op["start"])
+        if op["stop"] != NONE:
+            kw["stop"] = fl(op["stop"])
+        return w.slice_by_value(**kw)
+    if k == "get":
+        return (w.get(), w.get_reference(), w.get_original())
+    if k == "to_function":
+        return w.to_function()(np.asarray(w.get()[0], dtype=float))
+    if k == "len":
+        return len(w)
+    if k == "to_2d_array":
+        return w.to_2d_array()
+    raise KeyError(k)
+
+
+def fop(op, rx, ry):
+    """F_op(previous reference): the standalone function applied to the previously recorded reference series."""
+    k = op["k"]
+    if k == "append":
+        return sau.append_one_sample(rx, ry, make_periodic=op["periodic"])
+    if k == "shift_x":
+        return rx + fl(op["v"]), ry
+    if k == "shift_y":
+        return rx, ry + fl(op["v"])
+    if k == "scale_x":
+        return rx * fl(op["v"]), ry
+    if k == "scale_y":
+        return rx, ry * fl(op["v"])
+    if k == "normalize_x":
+        return proc.normalize(rx, fl(op["lo"]), fl(op["hi"])), ry
+    if k == "normalize_y":
+        return rx, proc.normalize(ry, fl(op["lo"]), fl(op["hi"]))
+    if k == "repeat":
+        return proc.repeat(rx, ry, op["r"])
+    if k == "truncate_value":
+        return proc.truncate(rx, ry, fl(op["left"]), fl(op["right"]), op["lr"], op["rr"])
+    if k == "truncate_index":
+        return rx[op["start"]:op["stop_resolved"]], ry[op["start"]:op["stop_resolved"]]
+    return None
+
+
+def wobs(w):
+    """Observation of a Weaver through its public getters."""
+    (x, y), (rx, ry), (ox, oy) = w.get(), w.get_reference(), w.get_original()
+    ks = [kind(v) for v in (x, y, rx, ry, ox, oy)]
+    good = all(k in ("ndarray1f", "ndarray1i") for k in ks)
+    return {"x": vec(x), "y": vec(y), "rx": vec(rx), "ry": vec(ry), "ox": vec(ox), "oy": vec(oy),
+            "kinds": "ok" if good else "/".join(ks)}
+
+
+def ex_whist(c):
+    st = c["start"]
+    cx, cy = arr(st["x"], st.get("container", "array")), arr(st["y"], st.get("container", "array"))
+    keep = [np.array(cx, copy=True) if isinstance(cx, np.ndarray) else list(cx), np.array(cy, copy=True) if isinstance(cy, np.ndarray) else list(cy)]
+    extra_caller = []          # further caller-owned arrays (explicit grids)
+
+    def caller_ok():
+        same = lambda a, b: (a.tobytes() == b.tobytes() and a.dtype == b.dtype) if isinstance(a, np.ndarray) else a == b
+        return bool(same(cx, keep[0]) and same(cy, keep[1]) and all(a.tobytes() == b for a, b in extra_caller))
+    w = Weaver(cx, cy)
+    e = {"fn": "whist", "start": {"x": st["x"], "y": st["y"]}, "init": wobs(w), "steps": []}
+    for op in c["ops"]:
+        before = snap(w)
+        prev_ref = guarded(lambda: tuple(np.array(v, dtype=float, copy=True) for v in w.get_reference()))[1]
+        o = {kk: vv for kk, vv in op.items() if kk not in ("n_f", "alpha_f", "exp_f", "smooth_f", "s_f", "snr_f", "seed", "as_int", "qcontainer", "linear")}
+        if op["k"] == "truncate_index" and prev_ref is not None:
+            op = dict(op, stop_resolved=(len(w.get()[0]) if op["stop"] == NONEINT else op["stop"]))
+        if op["k"] == "interpolate_grid":
+            pass
+        oc, _ = guarded(lambda: wcall(w, op))
+        after = snap(w)
+        s = {"op": o, "outcome": oc, "frame": after == before, "caller": caller_ok(), "orig_same": after[4:] == before[4:], "frx": [], "fry": []}
+        obs = guarded(lambda: wobs(w))[1]
+        if obs is None:
+            obs = {"x": [], "y": [], "rx": [], "ry": [], "ox": [], "oy": [], "kinds": "unobservable"}
+        s.update(obs)
+        if oc == "ok" and op["k"] in DOMAIN_OPS and prev_ref is not None:
+            foc, f = guarded(lambda: fop(op, prev_ref[0], prev_ref[1]))
+            if foc == "ok" and f is not None:
+                s["frx"], s["fry"] = vec(f[0]), vec(f[1])
+        e["steps"].append(s)
+    return e
+
+
+def ex_wrestore(c):
+    """Prefix program, restore_original, suffix program  versus  fresh Weaver(get_original()) + the same suffix."""
+    st = c["start"]
+
+    def run_suffix(w):
+        out = []
+        for op in c["suffix"]:
+            oc, _ = guarded(lambda: wcall(w, op))
+            o = guarded(lambda: wobs(w))[1] or {"x": [], "y": [], "rx": [], "ry": [], "ox": [], "oy": [], "kinds": "unobservable"}
+            o["outcome"] = oc
+            out.append(o)
+        return out
+    wa = Weaver(arr(st["x"]), arr(st["y"]))
+    for op in c["prefix"]:
+        guarded(lambda: wcall(wa, op))
+    roc, _ = guarded(lambda: wa.restore_original())
+    ox, oy = wa.get_original()
+    wb = Weaver(np.array(ox, copy=True), np.array(oy, copy=True))
+    a, b = run_suffix(wa), run_suffix(wb)
+    return {"fn": "wrestore", "outcome": roc, "a": a, "b": b,
+            "case": {"start": st, "prefix": c["prefix"], "suffix": c["suffix"]}}
+
+
+EXECUTORS.update({"whist": ex_whist, "wrestore": ex_wrestore})
